@@ -23,7 +23,8 @@ MODEL_TARGETS = ["Model/C03Schedule.vo", "Model/C16Matcher.vo", "Model/C16Fits.v
 RULE = ("matcher: every pair of integer matrices with entries -2..2 of the shapes listed in the evidence (in-Coq "
         "enumeration, product order), plus random pairs up to 4x6 (entries up to 64) built as row combinations / "
         "perturbations / rank-deficient variants; Template.matches and the checks: template/schedule pairs of the C03 "
-        "generator (derived / tiled / random families, broadcast operands, different ranks); L2: every yielded schedule "
+        "generator (derived / tiled / random families, broadcast operands, different ranks) plus a predicate family "
+        "(non-matching pairs with 1-3 temporal dims and entries of every sign); L2: every yielded schedule "
         "of every generated case. Non-trivial = the two row spaces are equal with different matrices, or the search "
         "yields a schedule; distinct = distinct inputs")
 TRUSTED_BASE = [
@@ -159,7 +160,11 @@ def _match_cases(ctx, n):
     cases = {k: [] for k in ("match", "pos", "mem", "ocs")}
     meta = {k: [] for k in cases}
     for i in range(n):
-        tp, sp, fam = D.gen_sched_case(rng)
+        if i % 3 == 2:   # predicate family: several temporal dims, entries of every sign (pair need not match)
+            tp, sp = D.gen_predicate_pair(rng)
+            fam = "predicate"
+        else:
+            tp, sp, fam = D.gen_sched_case(rng)
         T, s = D.mk_template(tp), D.mk_schedule(sp)
         # make a share of the pairs line up as in the search: compare inner dims as the search does
         k = rng.randint(1, max(1, len(sp[0][0]) + 1))
@@ -367,6 +372,11 @@ def search(ctx, deep=False):
         fails += f
         fails += check_predicates(tp, sp, cdesc)
         ctx.count({"L2": "fits", "template": tp, "schedule": sp, **cdesc, "results": nres}, nres > 0, f"l2{tp}{sp}{cdesc}", f"L2-{fam}")
+    for i in range(ctx.n(200, 2500) * (3 if deep else 1)):
+        tp, sp = D.gen_predicate_pair(rng)
+        _, _, cdesc = D.gen_checks(rng, len(sp))
+        fails += check_predicates(tp, sp, cdesc)
+        ctx.count({"L2": "predicates", "template": tp, "schedule": sp, **cdesc}, True, f"l2q{tp}{sp}{cdesc}", "L2-predicate")
     return _dedup(fails)
 
 
